@@ -128,7 +128,7 @@ def repeated_exh(tier, seed):
     rng = _r.Random(f'{seed}/repeated-exh')
     tables = list(itertools.product(range(8), repeat=4)) + list(itertools.product(range(8), repeat=3))
     if tier == 'quick':
-        tables = rng.sample(tables, 220)
+        tables = rng.sample(tables, 120)
     for k, t in enumerate(tables):
         rows = []
         for r in t:
